@@ -12,11 +12,14 @@ THEOREMS = [
     'OpenHTF.Exec.c01_first_terminal_decides',
     'OpenHTF.Exec.c01_pass_record_certifies',
     'OpenHTF.Exec.c01_repeat_on_timeout_counterexample',
+    'OpenHTF.Exec.c01_records_only_appended',
+    'OpenHTF.Exec.c01_declared_phases_accounted_partial',
     'OpenHTF.Exec.runTest_ErrInv',
     'OpenHTF.Exec.runTest_LastTerm',
 ]
-PENDING = ['Accounted (every declared phase node ran or was excluded by run_if / untaken branch / SKIP): evaluated on '
-           'every real observation by the Lean spec (declared-phase-unaccounted), not yet a theorem about the model']
+PENDING = ['Accounted, full strength (also phases below taken branches, inside subtests that did not fail, and phases whose run_if '
+           'evaluated true): evaluated on every real observation by the Lean spec (declared-phase-unaccounted); the theorem '
+           'c01_declared_phases_accounted_partial covers phases declared unconditionally at any depth of sequences and groups']
 RULE = ('corpus (incl. the fixed defects #1 #2 #4 and the known finding #3); all trees of size<=2 (quick) / <=3 (thorough) x '
         'the 2x2 configuration (stop_on_first_failure, allow_unset_measurements) with option subsets on the first phase; '
         'random trees to 25 nodes with measurements, diagnosers, run_if, repeats, test_start and test diagnosers; '
